@@ -927,3 +927,110 @@ Proof.
     + rewrite combine_nth by auto. f_equal.
       rewrite zrange_span, nth_span by lia. lia.
 Qed.
+
+(* same images, masks and parameters; another list of disparities and another cost volume *)
+Definition with_volume (x : cbca_in) (disps : list Q) (cv : Z -> Z -> Z -> option Q) : cbca_in :=
+  mkIn (i_nr x) (i_nc x) (i_off x) (i_subpix x) (i_dist x) (i_inten x)
+       (i_imL x) (i_mskL x) (i_validL x) (i_imR x) (i_mskR x) (i_validR x) disps cv.
+
+Section Final.
+  Variable x : cbca_in.
+  Hypothesis Hdist : 1 <= i_dist x.
+  Hypothesis Hsub : 1 <= i_subpix x.
+  Hypothesis Hoff : 0 <= i_off x.
+  Hypothesis Hcnr : 1 <= cnr x.
+  Hypothesis Hcnc : 1 <= cnc x.
+
+  Lemma in_crop_range : forall r c, in_crop x r c = true ->
+    0 <= r - i_off x < cnr x /\ 0 <= c - i_off x < cnc x /\ 0 <= r < i_nr x /\ 0 <= c < i_nc x.
+  Proof. intros r c H. unfold in_crop, cnr, cnc in *. lia. Qed.
+
+  Lemma cross_left_ok : forall r c, 0 <= r < cnr x -> 0 <= c < cnc x ->
+    lookup arms0 (cross_left_table x) r c
+    = mkArms (spec_arm (spec_left x) (i_dist x) (i_inten x) DLeft r c)
+             (spec_arm (spec_left x) (i_dist x) (i_inten x) DRight r c)
+             (spec_arm (spec_left x) (i_dist x) (i_inten x) DUp r c)
+             (spec_arm (spec_left x) (i_dist x) (i_inten x) DDown r c).
+  Proof.
+    intros r c Hr Hc. unfold cross_left_table. cbv zeta.
+    rewrite lookup_tabulate by lia. rewrite arms_spec by lia. cbv zeta.
+    f_equal; apply spec_arm_ext; auto; unfold spec_left, inside; simpl;
+      intros r0 c0 Hin; unfold crop; apply lookup_tabulate; unfold cnr, cnc in *; lia.
+  Qed.
+
+  Lemma cross_right_ok : forall s r c, 0 <= r < cnr x -> 0 <= c < cncR x s ->
+    lookup arms0 (cross_right_table x s) r c
+    = mkArms (spec_arm (spec_right x s) (i_dist x) (i_inten x) DLeft r c)
+             (spec_arm (spec_right x s) (i_dist x) (i_inten x) DRight r c)
+             (spec_arm (spec_right x s) (i_dist x) (i_inten x) DUp r c)
+             (spec_arm (spec_right x s) (i_dist x) (i_inten x) DDown r c).
+  Proof.
+    intros s r c Hr Hc. unfold cross_right_table. cbv zeta.
+    rewrite lookup_tabulate by lia. rewrite arms_spec by lia. cbv zeta.
+    f_equal; apply spec_arm_ext; auto; unfold spec_right, inside; simpl;
+      intros r0 c0 Hin; unfold crop; apply lookup_tabulate; unfold cnr, cncR in *; lia.
+  Qed.
+
+  (* C11, main statement: the aggregated cost is the mean of the computable costs over the
+     combined support region of the specification *)
+  Theorem cbca_model_eq_spec : forall k r c,
+    0 <= k < n_disp x -> in_crop x r c = true ->
+    let d := nth_disp x k in
+    let s := plane_image (i_subpix x) d in
+    (* guard (C02): no computable cost where the correspondent is outside the right image *)
+    (forall r' c', 0 <= r' < cnr x -> 0 <= c' < cnc x ->
+                   ~ (0 <= c' + plane_shift d < cncR x s) ->
+                   i_cv x k (r' + i_off x) (c' + i_off x) = None) ->
+    out_at x k r c
+    = agg_spec (spec_left x) (spec_right x s) (i_dist x) (i_inten x) (plane_shift d)
+               (crop (i_off x) (i_cv x k)) (r - i_off x) (c - i_off x).
+  Proof.
+    intros k r c Hk Hin d s Hguard.
+    destruct (in_crop_range r c Hin) as (R1 & R2 & R3 & R4).
+    rewrite volume_at by auto. rewrite Hin. fold d. change (i_right (i_subpix x) d) with s.
+    unfold agg_spec, plane_shift.
+    apply plane_out_spec; auto.
+    - apply cross_left_ok.
+    - apply cross_right_ok.
+    - intros. apply (spec_arm_in_image (spec_left x)); simpl; auto.
+    - intros. apply (spec_arm_inside (spec_right x s)).
+    - intros r' c' Hr' Hc' Hv. unfold crop. apply Hguard; auto.
+      intro A. apply valid_col_iff in A. unfold plane_shift in *. congruence.
+  Qed.
+
+  (* NaN stays NaN, nothing else becomes NaN -- costs are finite or NaN by typing:
+     the guard "no +-inf in the volume" is the type [option Q] of a cost *)
+  Theorem cbca_nan_preserved : forall k r c,
+    0 <= k < n_disp x -> 0 <= r < i_nr x -> 0 <= c < i_nc x ->
+    (out_at x k r c = None <-> i_cv x k r c = None).
+  Proof.
+    intros k r c Hk Hr Hc. rewrite volume_at by auto.
+    destruct (in_crop x r c) eqn:Hin; [|tauto].
+    destruct (in_crop_range r c Hin) as (R1 & R2 & R3 & R4).
+    rewrite plane_out_nan by auto. unfold crop.
+    replace (r - i_off x + i_off x) with r by lia. replace (c - i_off x + i_off x) with c by lia.
+    tauto.
+  Qed.
+
+  (* the costs outside the computable area (window offset) are not touched *)
+  Theorem cbca_border_unchanged : forall k r c,
+    0 <= k < n_disp x -> 0 <= r < i_nr x -> 0 <= c < i_nc x -> in_crop x r c = false ->
+    out_at x k r c = i_cv x k r c.
+  Proof. intros k r c Hk Hr Hc Hin. rewrite volume_at by auto. rewrite Hin. reflexivity. Qed.
+
+  (* each plane is aggregated independently of the others: the output plane depends on the
+     images, the parameters, the plane's own disparity and the plane's own costs only - not
+     on the other planes, their number or their order *)
+  Theorem cbca_plane_independent : forall disps' cv' k k' r c,
+    0 <= k < n_disp x -> 0 <= k' < Z.of_nat (length disps') ->
+    nth_disp x k = nth (Z.to_nat k') disps' 0%Q ->
+    i_cv x k = cv' k' ->
+    0 <= r < i_nr x -> 0 <= c < i_nc x ->
+    out_at x k r c = out_at (with_volume x disps' cv') k' r c.
+  Proof.
+    intros disps' cv' k k' r c Hk Hk' Hd Hcv Hr Hc.
+    rewrite volume_at by auto.
+    rewrite (volume_at (with_volume x disps' cv')) by (simpl; auto).
+    unfold nth_disp in *. cbn [with_volume i_disps i_cv]. rewrite <- Hd, <- Hcv. reflexivity.
+  Qed.
+End Final.
